@@ -5,6 +5,7 @@ import (
 	"sort"
 	"strconv"
 	"strings"
+	"unicode"
 
 	flags "github.com/jessevdk/go-flags"
 )
@@ -233,6 +234,13 @@ func checkC12(c *Ctx, n int) {
 	p.ValueBad = 0
 	p.OptsMask = flags.HelpFlag | flags.PassDoubleDash
 	p.Env = 0.05
+	// the assumption of theorem string_value_round_trip on the IsPrint oracle, checked against Go:
+	// no white-space character beyond U+00FF is printable
+	for r := rune(0x100); r <= 0x10FFFF; r++ {
+		if unicode.IsSpace(r) {
+			c.Check("oracle-assumption:space-characters-are-not-printable", !strconv.IsPrint(r), "C12:oracle-assumption", map[string]interface{}{"rune": fmt.Sprintf("U+%04X", r)}, "printable", "not printable")
+		}
+	}
 	for i := 0; i < n; i++ {
 		g := &gen{r: c.Rng, p: p}
 		cs := g.genCase()
